@@ -142,7 +142,7 @@ class EventHandler(abc.ABC):
         self.ns_context.append(self.ns_map.copy())
         self.ns_map = self.ns_context[-1]
 
-        self.pending_tag = split_qname(qname)
+        self.pending_tag = split_qname(qname) if qname else (None, "")
         self.validate_name(self.pending_tag[1])
         self.add_namespace(self.pending_tag[0])
         # Reset early, QName attribute values are encoded before the tag is flushed
@@ -170,7 +170,7 @@ class EventHandler(abc.ABC):
         if self.is_xsi_type(qname, value):
             value = QName(value)
 
-        name_tuple = split_qname(qname)
+        name_tuple = split_qname(qname) if qname else (None, "")
         self.validate_name(name_tuple[1])
         self.attrs[name_tuple] = self.encode_data(value)
 
